@@ -55,8 +55,13 @@ def bit(value: int, byte: int, position: int) -> int:
     :param value: Value to encode
     :param byte: The byte to apply the value to
     :param position: The position in the byte to set the bit on
+    :raises TypeError: when the value is not a bool (or 0 / 1)
 
     """
+    if not isinstance(value, int):
+        raise TypeError('bool required, received {}'.format(type(value)))
+    elif not (0 <= value <= 1):
+        raise TypeError('Bit value range: 0 to 1')
     return byte | (value << position)
 
 
